@@ -43,6 +43,10 @@ func (mux *ServeMux) match(q string, t uint16) Handler {
 			if t != TypeDS {
 				return h
 			}
+			if handler != nil {
+				// the closest registered zone above the first match: the parent
+				return h
+			}
 			// Continue for DS to see if we have a parent too, if so delegate to the parent
 			handler = h
 		}
